@@ -4,7 +4,7 @@ from hypothesis import strategies as st
 from ECAgent.Core import Agent, Model
 from ECAgent.Environments import DiscreteWorld, GridWorld, LineWorld, SpaceWorld, PositionComponent
 from vf.engine import Violation, InvalidCase
-from vf.fixtures import CompA, CompB, CompC, check, sized_lists, wone_of
+from vf.fixtures import CompA, CompB, CompC, CompF, check, sized_lists, wone_of
 
 PROPERTY = "C03"
 BUDGET = {"quick": 1600, "thorough": 5000}
@@ -22,7 +22,7 @@ RULE = ("2-3 models alive at once, each with its own environment kind (plain, Sp
 ASSUMPTIONS = ["an agent is resident in at most one environment at a time", "explicit (de)registration is only generated for "
                "components of resident agents", "the world-managed PositionComponent is not part of the claim"]
 
-TYPES = [CompA, CompB, CompC]
+TYPES = [CompA, CompB, CompF]     # CompF instances are falsy
 KINDS = ["plain", "space", "discrete", "line", "grid"]
 LIVE = set()
 
